@@ -281,7 +281,7 @@ func diffCase(in caseInput, cfgs []config, o diffOpts) diffOut {
 				continue
 			case "budget":
 				var mech []string
-				if o.Lockstep && obs.Dropped == 0 {
+				if o.Lockstep {
 					// what did the machine do before it stopped making progress?
 					_, st, _ := buildDyn(c, obs.Log)
 					if st.SquashedRegWB > 0 && (c.V == "mvp6-0" || c.V == "mvp6-1") {
